@@ -260,6 +260,10 @@ def gen_def(rng: random.Random, idx: int) -> dict:
             spec[":factory"] = rng.choice(["DictWrapper", "Rec"])
         if rng.random() < 0.15:
             spec[":callback"] = rng.choice(["cb_mark", "cb_drop"])
+        if rng.random() < 0.15:  # attributes named like the macros
+            spec["idx"] = rng.choice(["{idx}", "#{hier_idx}", 5])
+        if rng.random() < 0.15:
+            spec["hier_idx"] = rng.choice(["{hier_idx}", "{idx}"])
         has_default_count = ":count" in tdefs.get(t, {}) or ":count" in tdefs.get("*", {})
         if p == t:  # self-recursive relation: sub-critical count (mean 0.5) so that the tree is finite
             spec[":count"] = {"$r": "range", "min": 0, "max": 2, "p": 1.0, "none": None}
@@ -289,6 +293,10 @@ def handmade_defs():
     })
     out.append({"relations": {"__root__": {}}})  # valid, empty
     out.append({"relations": {"__root__": {"ta": {":count": 0, "t": "ta", "h": "{hier_idx}"}}}})  # count 0
+    # attributes that are *named* like the macros (the obvious way to store the index) and like one another's templates
+    out.append({"name": "macro-named", "types": {"*": {"idx": "{idx}", "prefix": "P"}, "tb": {"hier_idx": "{hier_idx}", "idx": 7}},
+                "relations": {"__root__": {"ta": {":count": 3, "t": "ta", "h": "{hier_idx}", "hier_idx": "{hier_idx}", "label": "#{idx}", "title": "Shelf {hier_idx}"}},
+                              "ta": {"tb": {":count": 2, "t": "tb", "h": "{hier_idx}", "label": "{idx}/{hier_idx}", "idx": {"$r": "range", "min": 100, "max": 200, "p": 1.0, "none": None}}}}})
     out.append({"name": "probs", "relations": {"__root__": {"ta": {  # every randomizer at probability 0.0 / 1.0 / 0.5
         ":count": 4, "t": "ta", "h": "{hier_idx}", "i": "{idx}",
         "r0": {"$r": "range", "min": 1, "max": 3, "p": 0.0, "none": None}, "r1": {"$r": "range", "min": 1, "max": 2, "p": 1.0, "none": None},
